@@ -118,6 +118,10 @@ def gen(r, focus, tier="quick"):
                     mem = mq * unit
                 segs.append([fstr(b), law, None if mem is None else fstr(mem), fstr(read)])
             ops.append({"par": par[oi], "segs": segs})
+            if r.random() < 0.08:
+                # one Segment object added two or three times to the operator
+                ops[-1]["segs"] = [segs[0]] * r.choice([2, 3]) + segs[1:]
+                ops[-1]["same_segment_object"] = True
         at = 0 if r.random() < 0.6 else r.randint(0, max(0, T // 2))
         pipes.append({"prio": r.choice(["QUERY", "INTERACTIVE", "BATCH_PIPELINE"]), "at": at, "ops": ops})
         if r.random() < 0.25:
